@@ -223,7 +223,7 @@ func (m *t1Machine) runX(code []byte, stack, ps, flex []sv, flags map[string]boo
 	fr.vals[fn.Params[1]] = sv{k: svString, s: string(code)}
 	fr.vals[fn.Params[2]] = symV("name")
 	ev.guide = guideTo(m.inner)
-	at, _, _ := ev.runBlocks(fr, fn.Blocks[0], nil, func(next, from *ssa.BasicBlock) bool { return next == m.inner })
+	at, from0, _ := ev.runBlocks(fr, fn.Blocks[0], nil, func(next, from *ssa.BasicBlock) bool { return next == m.inner })
 	if at != m.inner {
 		out.why = "the command loop is not reached: " + ev.why
 		return out
@@ -295,6 +295,38 @@ func (m *t1Machine) runX(code []byte, stack, ps, flex []sv, flags map[string]boo
 			} else {
 				fr.vals[phi] = symV("v:" + phi.Comment)
 			}
+		}
+	}
+	// the return frames kept in a fixed array with a counter instead of a slice: the array cell
+	// holds the frames, the integer carried by the loop that indexes it counts them — starting
+	// from the value it has when the loop is entered with no call outstanding
+	frameArr, frameBase := "", int64(0)
+	var depthPhi *ssa.Phi
+	if framesPhi == nil {
+		if al, phi := m.frameArray(); al != nil {
+			if a := ev.val(fr, al); a.k == svAddr {
+				for i, p := range m.inner.Preds {
+					if p == from0 {
+						if b0 := ev.val(fr, phi.Edges[i]); b0.k == svInt {
+							frameArr, frameBase, depthPhi = a.s, b0.i, phi
+						}
+					}
+				}
+			}
+		}
+		if frameArr != "" {
+			n := 1
+			if m.framesSet {
+				n = m.nframes
+			}
+			for i := 0; i < n; i++ {
+				name := "outer"
+				if m.framesSet {
+					name = fmt.Sprintf("outer%d", i)
+				}
+				ev.mem[fmt.Sprintf("%s[%d]", frameArr, i)] = symV(name)
+			}
+			fr.vals[depthPhi] = intV(frameBase + int64(n))
 		}
 	}
 	if m.flexFirst {
@@ -387,6 +419,14 @@ func (m *t1Machine) runX(code []byte, stack, ps, flex []sv, flags map[string]boo
 					out.frames = append([]sv{}, el...)
 				}
 			}
+			if depthPhi != nil {
+				if nd := ev.val(fr, depthPhi.Edges[i]); nd.k == svInt {
+					out.frames = []sv{}
+					for j := int64(0); j < nd.i-frameBase && j < 4096; j++ {
+						out.frames = append(out.frames, ev.mem[fmt.Sprintf("%s[%d]", frameArr, j)])
+					}
+				}
+			}
 		}
 	}
 	out.flags = map[string]bool{}
@@ -396,6 +436,77 @@ func (m *t1Machine) runX(code []byte, stack, ps, flex []sv, flags map[string]boo
 		}
 	}
 	return out
+}
+
+// frameArray: the local array of byte slices that holds the return frames of the decoder, and
+// the integer carried by the command loop that indexes it (directly, off by a constant, or
+// through the counter of the enclosing loop).  nil, nil when the decoder has no such array.
+func (m *t1Machine) frameArray() (*ssa.Alloc, *ssa.Phi) {
+	rootPhi := func(v ssa.Value) *ssa.Phi {
+		for i := 0; i < 8; i++ {
+			switch x := v.(type) {
+			case *ssa.Phi:
+				return x
+			case *ssa.Convert:
+				v = x.X
+			case *ssa.BinOp:
+				_, yc := x.Y.(*ssa.Const)
+				_, xc := x.X.(*ssa.Const)
+				switch {
+				case (x.Op == token.ADD || x.Op == token.SUB) && yc:
+					v = x.X
+				case x.Op == token.ADD && xc:
+					v = x.Y
+				default:
+					return nil
+				}
+			default:
+				return nil
+			}
+		}
+		return nil
+	}
+	var arr *ssa.Alloc
+	var idx *ssa.Phi
+	eachInstr(m.fn, func(ins ssa.Instruction) {
+		ia, ok := ins.(*ssa.IndexAddr)
+		if !ok {
+			return
+		}
+		al, ok := ia.X.(*ssa.Alloc)
+		if !ok {
+			return
+		}
+		at, ok := al.Type().Underlying().(*types.Pointer).Elem().Underlying().(*types.Array)
+		if !ok {
+			return
+		}
+		if sl, ok := at.Elem().Underlying().(*types.Slice); !ok {
+			return
+		} else if bt, ok := sl.Elem().Underlying().(*types.Basic); !ok || bt.Kind() != types.Uint8 {
+			return
+		}
+		r := rootPhi(ia.Index)
+		if r == nil {
+			return
+		}
+		for _, hi := range m.inner.Instrs {
+			phi, ok := hi.(*ssa.Phi)
+			if !ok {
+				continue
+			}
+			hit := r == phi
+			for _, e := range r.Edges {
+				if rootPhi(e) == phi {
+					hit = true
+				}
+			}
+			if hit && (arr == nil || arr == al) {
+				arr, idx = al, phi
+			}
+		}
+	})
+	return arr, idx
 }
 
 func (c *Ctx) t1CommandTable() {
